@@ -112,7 +112,7 @@ def rule_escape(rep: Report, repo: Repo) -> None:
                     proof = f'CONST: constant operand {right.value}'
                 elif isinstance(s.node.op, ast.LShift) and norm(right) in ('self.memory_width',):     # type: ignore[attr-defined]
                     proof = 'CONST: shift by the validated memory width'
-                elif isinstance(s.node.op, (ast.LShift, ast.RShift)) and 'memory_width' in norm(right) or 'bit_length' in norm(right):  # type: ignore[attr-defined]
+                elif isinstance(s.node.op, (ast.LShift, ast.RShift)) and ('memory_width' in norm(right) or 'bit_length' in norm(right)):  # type: ignore[attr-defined]
                     proof = 'CONST: shift by a width-derived amount'
             elif s.kind == 'call' and s.classes == ('OSError',):
                 proof = 'ASSUMPTION: OSError from open() is outside the property (it speaks about byte strings of existing files)'
@@ -128,6 +128,21 @@ def rule_escape(rep: Report, repo: Repo) -> None:
                           expected=READ_EXC)
 
 
+def _benign_helper(repo: Repo, name: str) -> bool:
+    """a module-level function of the fjm package (reader module or its constants module) whose body has no implicitly raising
+    construct and calls nothing but safe builtins - e.g. a shared message builder"""
+    from ..excflow import SAFE_BUILTINS, collect_sites
+    if not name.isidentifier():
+        return False
+    for rel in (R, 'flipjump/fjm/fjm_consts.py'):
+        if repo.exists(rel) and repo.has_func(rel, name):
+            fn = repo.func(rel, name)
+            if collect_sites(repo, rel, name):
+                return False
+            return all(dotted(c.func) in SAFE_BUILTINS or dotted(c.func) in ('str', 'repr', 'hex') for c in ast.walk(fn) if isinstance(c, ast.Call))
+    return False
+
+
 def unclassified_calls(repo: Repo) -> List[str]:
     from ..excflow import SAFE_BUILTINS
     out = []
@@ -140,6 +155,8 @@ def unclassified_calls(repo: Repo) -> List[str]:
                 d = dotted(n.func)
                 if d.startswith('self.') or d in known or d in SAFE_BUILTINS or d.split('.')[-1] in ('append', 'read', 'items', 'sort', 'extend', 'values', 'keys'):
                     continue
+                if _benign_helper(repo, d):
+                    continue            # a project function that only builds a value (no raising construct, no further calls)
                 out.append(f'{R}:{n.lineno} {q}: {d or norm(n.func)[:40]}()')
     return out
 
